@@ -61,6 +61,9 @@ func (x *Xlat) newSpecEnvFrame(st *State, fr *Frame, pos token.Pos) *SpecEnv {
 
 func (env *SpecEnv) setResults(fi *FuncInfo, rs []*Term) {
 	sig := fi.Obj.Type().(*types.Signature)
+	if fi.Lit != nil {
+		sig = fi.Pkg.TypesInfo.TypeOf(fi.Lit).(*types.Signature)
+	}
 	for i := 0; i < sig.Results().Len() && i < len(rs); i++ {
 		r := sig.Results().At(i)
 		env.results = append(env.results, SpecVal{t: rs[i], typ: r.Type()})
@@ -173,7 +176,11 @@ func (env *SpecEnv) ident(name string) SpecVal {
 						return SpecVal{t: tv, typ: v.Type()}
 					}
 					if tv, ok := env.cur.env[k]; ok && env.mode != 0 {
-						// not yet declared in the old state: fall back (loop-local variable)
+						// not declared in the old state: the current value is meant, but everything read through it
+						// would come from the old heap - almost always a mistake unless wrapped in now(...)
+						if env.mode == 1 && (tv.Sort == SRef || tv.Sort == SSlice) {
+							env.fail("local %s does not exist in the old state: inside old(...) write now(%s...) for the part that is to be read in the current state", name, name)
+						}
 						return SpecVal{t: tv, typ: v.Type()}
 					}
 				}
